@@ -257,6 +257,16 @@ def bufwriter_new(e, c, a):
     return BufWriterObj(a[-1], ov if ov is not None else cap)
 
 
+@model(r"^BufWriter::<.*>::(get_mut|get_ref|into_inner)$|^BufReader::<.*>::(get_mut|get_ref|into_inner)$")
+def bufwriter_inner(e, c, a):
+    w = _source(e, a[0])
+    if c.endswith("into_inner"):
+        if isinstance(w, BufWriterObj):
+            return ok(w.inner) if w.flush(e) else err(io_err("ENOSPC"))
+        return w
+    return Ref(Cell(w.inner if isinstance(w, BufWriterObj) else w))
+
+
 @model(r"^Cursor::<.*>::new$|^std::io::Cursor::<.*>::new$")
 def cursor_new(e, c, a):
     return CursorObj(a[0])
@@ -297,6 +307,9 @@ def io_write(e, c, a):
             return w.flush_model(e)
         raise Unsupported(f"flush on {w!r}")
     l, lo, hi = e.seq_of(a[1]); items = l[lo:hi]
+    if m == "write" and isinstance(w, FileObj):
+        n = w.raw_write(e, list(items))          # a single write(2): may be short
+        return err(io_err("ENOSPC")) if n is None else ok(usize(n))
     if isinstance(w, VecObj):
         w.e.extend(items); good = True
     elif isinstance(w, (FileObj, BufWriterObj)):
